@@ -24,6 +24,7 @@ import (
 	"fmt"
 	"io"
 	"math/rand"
+	"net/http"
 	"os"
 	"runtime/debug"
 	"strings"
@@ -93,6 +94,7 @@ type history struct {
 	seenMax                            []uint64 // per data node: highest cache index the sampler saw (atomic)
 	stopSampler                        chan struct{}
 	samplerDone                        sync.WaitGroup
+	hc                                 *http.Client
 }
 
 func (h *history) witness() interface{} {
@@ -101,7 +103,15 @@ func (h *history) witness() interface{} {
 
 // ------------------------------------------------------------------ cluster helpers
 
-var faultHTTP = newHTTP(20 * time.Second)
+// An in-process server that was closed keeps serving the connections it had
+// accepted (its old handler answers /ping with "no leader" for ever), so the
+// history's HTTP client is replaced whenever a meta node is stopped or started.
+func (h *history) renewHTTP() {
+	if h.hc != nil {
+		h.hc.CloseIdleConnections()
+	}
+	h.hc = newHTTP(20 * time.Second)
+}
 
 // leader returns the index of the meta node that the running nodes name as
 // leader (-1: none / no agreement).
@@ -113,7 +123,7 @@ func (h *history) leader() int {
 			continue
 		}
 		running++
-		rs, err := faultHTTP.Get("http://" + m.HTTPAddr + "/ping")
+		rs, err := h.hc.Get("http://" + m.HTTPAddr + "/ping")
 		if err != nil {
 			continue
 		}
@@ -156,6 +166,7 @@ func (h *history) waitLeader(wait time.Duration) int {
 func (h *history) stop(i int, why string) {
 	h.cl.StopMeta(i)
 	h.down[i] = true
+	h.renewHTTP()
 	h.faults = append(h.faults, faultRec{len(h.ops), fmt.Sprintf("stop meta %d (%s)", i, why)})
 }
 
@@ -198,6 +209,7 @@ func (h *history) start(is ...int) bool {
 		h.down[i] = false
 		h.restarts++
 	}
+	h.renewHTTP()
 	return true
 }
 
@@ -662,6 +674,7 @@ func faultHistory(caseID string, seed int64) {
 	}
 	defer closeCluster(cl)
 	h := &history{id: caseID, seed: seed, g: g, cl: cl, down: map[int]bool{}, lastLeader: -1, maxIdx: make([]uint64, nData), seenMax: make([]uint64, nData), stopSampler: make(chan struct{})}
+	h.renewHTTP()
 	if h.waitLeader(60*time.Second) < 0 {
 		r.Inconclusive(fmt.Sprintf("(d) %s: no leader after start", caseID))
 		return
@@ -825,7 +838,7 @@ func faultHistory(caseID string, seed int64) {
 		metas, caches = metas[:0], caches[:0]
 		settled := true
 		for _, m := range cl.Metas {
-			d, err := fetchData(faultHTTP, m.HTTPAddr)
+			d, err := fetchData(h.hc, m.HTTPAddr)
 			if err != nil {
 				settled = false
 				break
